@@ -270,6 +270,21 @@ func runBU(cm map[string]any, res CaseResult, fail func(string, any, any, any) C
 
 func runLD(cm map[string]any, res CaseResult, fail func(string, any, any, any) CaseResult) CaseResult {
 	beh := cm["beh"].(string)
+	if beh == "nil-root" {
+		// the Schema value that holds nothing at all: a nil *Schema (with and without options)
+		var nilRoot *jsonschema.Schema
+		for _, o := range []*jsonschema.ResolveOptions{nil, {}, {ValidateDefaults: true, BaseURI: "http://h/root.json"}} {
+			res.Evals++
+			if rs, err := nilRoot.Resolve(o); err == nil {
+				rs.Validate(1.0)
+				return fail("accepts-malformed", map[string]any{"root": "(*Schema)(nil)"}, "Resolve returns an error", "nil")
+			}
+		}
+		json.Marshal(nilRoot)
+		nilRoot.CloneSchemas()
+		res.Sample = map[string]any{"behaviour": beh}
+		return res
+	}
 	parse := func(text string) *jsonschema.Schema {
 		var s jsonschema.Schema
 		if err := json.Unmarshal([]byte(text), &s); err != nil {
